@@ -1,6 +1,7 @@
 from __future__ import annotations
 
 from collections import UserDict
+import copy
 import functools
 from typing import (
     Any,
@@ -191,6 +192,15 @@ class Handlers(UserDict):
         #   return the matching type.
         handlers_cls = type(self)
         return handlers_cls(self.data)
+
+    # NOTE: The resolver is bound to the instance that created it, so the
+    #   generic copy protocol (which copies instance attributes) would leave
+    #   the copy resolving against the original's mapping.
+    def __copy__(self) -> Handlers:
+        return self.copy()
+
+    def __deepcopy__(self, memo: Dict[int, Any]) -> Handlers:
+        return type(self)(copy.deepcopy(self.data, memo))
 
 
 def _best_match(media_type: str, all_media_types: Sequence[str]) -> Optional[str]:
